@@ -4,6 +4,7 @@ T-ann: the annotator's symbolic execution, evaluated, is concrete execution.
 import EtkVerif.Annot.Model
 import EtkVerif.Sym.Eval
 import EtkVerif.Evm.Sem
+import EtkVerif.Annot.Wf
 namespace EtkVerif
 namespace Annot
 open Ops Evm
@@ -25,6 +26,19 @@ def ExitAgrees (E : Env) (ω : Nat → Word) (entry : List Word) (a : Annotated)
         Tree.eval E ω (bind entry) ce = c) ∧
       st = a.outputs.map (Tree.eval E ω (bind entry)) ++ entry.drop a.inputs
 
+theorem bind_succ (entry : List Word) (i : Nat) : bind entry (i + 1) = entry.getD i 0 := rfl
+
+theorem annotate_inv (t : OpTable) (b : Blocks.Block) (a : Annotated) (h : annotate t b = .ok a) :
+    annotateLoop t b.ops b.offset 0 0 [] = .ok (a.exit, a.inputs, a.outputs) ∧
+    a.offset = b.offset ∧ a.size = b.size t ∧
+    a.jumpTarget = (b.ops.head?.map (fun i => (rowOf t i.op).jt)).getD false := by
+  unfold annotate at h
+  split at h
+  · cases h
+  · next exit vars cur hl =>
+    cases h
+    exact ⟨hl, rfl, rfl, rfl⟩
+
 /-- T-ann.  For every block the annotator accepts, every environment, every
 oracle for state-dependent reads and every entry stack at least as deep as the
 declared inputs: instruction-by-instruction execution does not underflow, and
@@ -34,7 +48,13 @@ theorem annotate_sound (t : OpTable) (b : Blocks.Block) (a : Annotated)
     (h : annotate t b = .ok a) (hs : SizesOK t b.ops) (hpc : b.offset + b.byteLen ≤ 65536)
     (E : Env) (ω : Nat → Word) (entry : List Word) (hd : a.inputs ≤ entry.length) :
     ∃ o, execBlock E ω b.ops b.offset 0 entry = some o ∧ ExitAgrees E ω entry a o := by
-  sorry
+  obtain ⟨hl, -, -, -⟩ := annotate_inv t b a h
+  obtain ⟨o, ho, hag⟩ := loop_sound E ω (bind entry) entry (bind_succ entry) t b.ops b.offset 0 0 []
+    a.exit a.inputs a.outputs hl hs hpc hd
+  have hm : model E ω (bind entry) entry 0 [] = entry := by simp [model]
+  rw [hm] at ho
+  refine ⟨o, ho, ?_⟩
+  cases o <;> exact hag
 
 /-- The declared inputs are exactly the deepest entry slot touched: on a
 shallower entry stack execution underflows. -/
@@ -42,13 +62,18 @@ theorem annotate_inputs_needed (t : OpTable) (b : Blocks.Block) (a : Annotated)
     (h : annotate t b = .ok a) (E : Env) (ω : Nat → Word) (entry : List Word)
     (hd : entry.length < a.inputs) :
     execBlock E ω b.ops b.offset 0 entry = none := by
-  sorry
+  obtain ⟨hl, -, -, -⟩ := annotate_inv t b a h
+  have := loop_needed E ω (bind entry) entry (bind_succ entry) t b.ops b.offset 0 0 []
+    a.exit a.inputs a.outputs hl (Nat.zero_le _) hd b.offset
+  have hm : model E ω (bind entry) entry 0 [] = entry := by simp [model]
+  rw [hm] at this
+  exact this
 
 /-- Offset, size and jump-target flag describe the block. -/
 theorem annotate_extent (t : OpTable) (b : Blocks.Block) (a : Annotated) (h : annotate t b = .ok a) :
     a.offset = b.offset ∧ a.size = b.size t ∧
-    a.jumpTarget = (b.ops.head?.map (fun i => (rowOf t i.op).jt)).getD false := by
-  sorry
+    a.jumpTarget = (b.ops.head?.map (fun i => (rowOf t i.op).jt)).getD false :=
+  (annotate_inv t b a h).2
 
 /-- Every tree the annotator produces is well formed (children = arity). -/
 theorem annotate_wf (t : OpTable) (b : Blocks.Block) (a : Annotated) (h : annotate t b = .ok a) :
@@ -57,7 +82,12 @@ theorem annotate_wf (t : OpTable) (b : Blocks.Block) (a : Annotated) (h : annota
      | .unconditional e => e.wf = true
      | .branch c d _ => c.wf = true ∧ d.wf = true
      | _ => True) := by
-  sorry
+  obtain ⟨hl, -, -, -⟩ := annotate_inv t b a h
+  obtain ⟨h1, h2⟩ := loop_wf t b.ops b.offset 0 0 [] a.exit a.inputs a.outputs hl
+    (by intro e he; cases he)
+  refine ⟨h1, ?_⟩
+  generalize a.exit = ex at h2
+  cases ex <;> exact h2
 
 end Annot
 end EtkVerif
